@@ -770,6 +770,7 @@ class HavlinSpec(DataClimateSpec):
 
     def setup_climate(self):
         self.mutators.insert(3, Mut("set_max_delay", self.m_delay))
+        self.quarantine = [_clear_cache_probe("HavlinClimateNetwork")]
 
     def m_delay(self, run, k):
         cur = run.model["extra"]["max_delay"]
@@ -782,11 +783,26 @@ class HavlinSpec(DataClimateSpec):
         return {"max_delay": d}
 
 
+def _clear_cache_probe(clsname, then=None):
+    """clear_cache() is documented as 'Clean up cache': it changes no input, so every query (and,
+    with `then`, the next regenerating setter) must afterwards behave as on a fresh object."""
+    def q_clear(run, k):
+        run.obj.clear_cache()
+        return then(run, k) if then is not None else {}
+    tag = "clear_cache" if then is None else "clear_cache+set_threshold"
+    return Mut("clear_cache", q_clear, check=f"{clsname}.{tag}/queries-as-fresh",
+               why="clear_cache() deletes derived data (lag / phase matrix) that nothing recomputes; "
+                   "accessors and re-thresholding then raise AttributeError")
+
+
 class HilbertSpec(DataClimateSpec):
     name = "HilbertClimateNetwork"
     clsname_ = "HilbertClimateNetwork"
     data_factory = staticmethod(_long_data)
     ctor_extra = {"directed": False}
+
+    def setup_climate(self):
+        self.quarantine = [_clear_cache_probe("HilbertClimateNetwork")]
 
 
 class HilbertDirectedSpec(HilbertSpec):
@@ -803,6 +819,8 @@ class HilbertDirectedSpec(HilbertSpec):
         regen = {"set_threshold": self.m_thr, "set_link_density": self.m_dens, "set_non_local": self.m_nonlocal}
         self.quarantine = [Mut(k, f, check=f"HilbertClimateNetwork.{k}/directed-fresh-twin", why=why)
                            for k, f in regen.items()]
+        self.quarantine += [_clear_cache_probe("HilbertClimateNetwork[directed]"),
+                            _clear_cache_probe("HilbertClimateNetwork[directed]", then=self.m_thr)]
         self.mutators = [m for m in self.mutators if m.name not in regen]
         self.mutators.append(Mut("set_directed", self.m_directed))
 
